@@ -833,6 +833,191 @@ def oracle_step_sequence(spec, bond, phis_deg):
     return fails
 
 
+PTCL4 = {"name": "PtCl4", "cls": "square-planar", "symbols": ["Pt", "Cl", "Cl", "Cl", "Cl"], "charge": -2, "bonds": None,
+         "coords": [[-0.1467, -0.2594, -0.0294], [-0.4597, -2.5963, -0.0523], [2.1804, -0.5689, -0.2496],
+                    [-2.4738, 0.0501, 0.1908], [0.1663, 2.0776, -0.0066]], "constraints": []}
+PF5 = {"name": "PF5", "cls": "trigonal-bipyramid", "symbols": ["P", "F", "F", "F", "F", "F"], "charge": 0, "bonds": None,
+       "coords": [[0.0, 0.0, 0.0], [0.0, 0.0, 1.58], [0.0, 0.0, -1.58], [1.53, 0.0, 0.0],
+                  [-0.765, 1.325, 0.0], [-0.765, -1.325, 0.0]], "constraints": []}
+NICN4_CORE = {"name": "AuCl4", "cls": "square-planar", "symbols": ["Au", "Cl", "Cl", "Cl", "Cl"], "charge": -1, "bonds": None,
+              "coords": [[0.0, 0.0, 0.01], [2.28, 0.02, 0.0], [-2.28, -0.02, 0.03], [0.02, 2.28, -0.02], [-0.02, -2.28, 0.0]],
+              "constraints": []}
+
+
+def oracle_oop_steps(spec, atom_idx, disps):
+    """consecutive small displacements of one atom along the normal of the coordination plane, each mapped to the
+    DIC step ds = B dx and taken on the same chain of DIC objects: such small steps converge, reproduce the requested
+    internals, and no primitive (the improper / out-of-plane dihedrals near 180 degrees in particular) jumps."""
+    from autode.opt.coordinates import DIC
+    from autode.opt.coordinates.primitives import PrimitiveDihedralAngle
+    from autode.exceptions import CoordinateTransformFailed
+    fails = []
+    R = rep(spec, kind="oop", atom=atom_idx, disps=list(disps))
+    try:
+        m, pic, x, q, B = build(spec)
+        cur = DIC.from_cartesian(x, pic)
+    except Exception:  # noqa   (reported by oracle_primitives)
+        return fails
+    U = np.array(cur.U, copy=True)
+    xyz = np.array(spec["coords"])
+    nb = [0] + [j for j in range(1, len(xyz)) if np.linalg.norm(xyz[j] - xyz[0]) < 2.8][:4]
+    if spec["cls"] == "trigonal-bipyramid":
+        nb = [0, 1, 2, 3]                       # plane containing the linear axial F-P-F and one equatorial F
+    c = xyz[nb] - xyz[nb].mean(axis=0)
+    normal = np.linalg.svd(c)[2][-1]
+    n_imp = sum(type(pr).__name__ == "PrimitiveImproperDihedral" for pr in pic)
+    for k, dsp in enumerate(disps, start=1):
+        q_prev = np.array(cur._q, copy=True)
+        dx = np.zeros((len(xyz), 3)); dx[atom_idx] = dsp * normal
+        ds = np.asarray(cur.B) @ dx.ravel()
+        s_req = np.array(cur, copy=True) + ds
+        cur.allow_unconverged_back_transform = False
+        label = f"{spec['name']} ({n_imp} improper dihedrals): step {k} of {list(disps)} A (atom {atom_idx} along the plane normal)"
+        try:
+            new = cur + ds
+        except CoordinateTransformFailed:
+            fails.append((f"DIC.iadd|small-out-of-plane-step-does-not-converge:{cls_key(spec)}",
+                          f"{label}: |ds| = {np.linalg.norm(ds):.3f} but the back-transformation did not converge", R))
+            return fails
+        except Exception as e:  # noqa
+            fails.append((f"DIC.iadd|{type(e).__name__}:{cls_key(spec)}", f"{label}: raised {type(e).__name__}", R))
+            return fails
+        fresh = pic(new._x)
+        qn = fresh.copy()
+        for i, pr in enumerate(pic):
+            if isinstance(pr, PrimitiveDihedralAngle):
+                qn[i] -= 2 * math.pi * round((qn[i] - q_prev[i]) / (2 * math.pi))
+        err = max(float(np.abs(U.T @ qn - s_req).max()), float(np.abs(np.asarray(new) - s_req).max()))
+        if err > 1e-6:
+            fails.append((f"DIC.iadd|success-but-wrong-internals:{cls_key(spec)}",
+                          f"{label}: reported success but max |s(x_new) - s_requested| = {err:.2e}", R))
+            return fails
+        dq = np.abs(np.asarray(new._q) - q_prev)
+        if dq.max() > 0.5 or np.abs(np.asarray(new._q) - qn).max() > 1e-8:
+            i = int(np.argmax(np.maximum(dq, np.abs(np.asarray(new._q) - qn))))
+            fails.append((f"DIC.iadd|stored-dihedral-discontinuous:{cls_key(spec)}",
+                          f"{label}: stored {pic[i]!r} went from {q_prev[i]:.4f} to {new._q[i]:.4f} (continuous value {qn[i]:.4f})", R))
+            return fails
+        cur = new
+    return fails
+
+
+PENTATETRAENE_C = [(-0.3167, 1.5996, 0.4004), (-0.8779, 2.7339, 0.6902), (-1.3968, 3.7829, 0.9582), (-1.9158, 4.8319, 1.2262),
+                   (-2.4770, 5.9661, 1.5160)]
+PENTATETRAENE_H = [(0.1364, 1.4405, -0.5711), (-0.2928, 0.7947, 1.1256), (-2.1197, 6.8879, 1.0720), (-3.3113, 6.0085, 2.2063)]
+
+
+def cumulene_spec(n_c, labels):
+    """H2C=(C=)nCH2 with the k-th carbon ALONG the chain numbered labels[k]; hydrogens last"""
+    if n_c == 5:
+        cs, hs = PENTATETRAENE_C, PENTATETRAENE_H
+    else:   # straight chain along a generic direction, terminal CH2 groups in perpendicular planes (even number of C=C)
+        d = np.array([0.36, -0.48, 0.8]); a = np.cross(d, [0, 0, 1.0]); a /= np.linalg.norm(a); b = np.cross(d, a)
+        z = np.concatenate([[0.0], np.cumsum([1.31] + [1.27] * (n_c - 3) + [1.31])])
+        cs = [tuple(zi * d) for zi in z]
+        e2 = a if (n_c % 2 == 0) else b
+        hs = [tuple(cs[0] - 0.55 * d + 0.93 * a), tuple(cs[0] - 0.55 * d - 0.93 * a),
+              tuple(np.array(cs[-1]) + 0.55 * d + 0.93 * e2), tuple(np.array(cs[-1]) + 0.55 * d - 0.93 * e2)]
+    coords = [None] * (n_c + 4)
+    for k, lab in enumerate(labels):
+        coords[lab] = list(map(float, cs[k]))
+    for k, h in enumerate(hs):
+        coords[n_c + k] = list(map(float, h))
+    return {"name": f"C{n_c}H4-cumulene{tuple(labels)}", "cls": "long-cumulene", "symbols": ["C"] * n_c + ["H"] * 4,
+            "coords": coords, "charge": 0, "bonds": None, "constraints": []}
+
+
+def internal_rank(spec):
+    m, pic, x, q, B = build(spec)
+    xyz = np.array(spec["coords"])
+    dof = 3 * len(xyz) - (5 if collinear(xyz) else 6)
+    T = rigid_basis(xyz)
+    sv = np.linalg.svd(B - (B @ T) @ T.T, compute_uv=False)
+    return int((sv > 1e-8 * sv[0]).sum()), dof, len(pic)
+
+
+_RANK_REF = {}
+
+
+def oracle_numbering(n_c, labels):
+    """completeness of the primitives must not depend on how the atoms are numbered"""
+    fails = []
+    if n_c not in _RANK_REF:
+        _RANK_REF[n_c] = internal_rank(cumulene_spec(n_c, list(range(n_c))))
+    ref_rank, dof, _ = _RANK_REF[n_c]
+    spec = cumulene_spec(n_c, list(labels))
+    R = {"kind": "numbering", "n_c": n_c, "labels": list(labels)}
+    try:
+        rank, dof, nprim = internal_rank(spec)
+    except Exception as e:  # noqa
+        fails.append((f"AnyPIC|{type(e).__name__}:long-cumulene", f"{spec['name']}: building the primitives raised {type(e).__name__}", R))
+        return fails
+    if rank < dof:
+        key = ("AnyPIC.from_species|rank-deficient:numbering-dependent" if ref_rank >= dof else "AnyPIC.from_species|rank-deficient:long-cumulene")
+        fails.append((key, f"{spec['name']}: chain carbons numbered {tuple(labels)} along the chain: the {nprim} primitives span {rank} of the "
+                           f"{dof} internal degrees of freedom, with the chain numbered 0..{n_c - 1} they span {ref_rank}", R))
+    return fails
+
+
+def oracle_stale_fallback(kind, size, inplace):
+    """tensors are discarded on a coordinate change also when the back-transformation does not converge and the
+    allowed first-order estimate is used (large steps): everything reachable from the new coordinates is None"""
+    from autode.opt.coordinates import CartesianCoordinates, DIC, DICWithConstraints
+    from autode.opt.coordinates.internals import AnyPIC
+    from autode.exceptions import CoordinateTransformFailed
+    fails = []
+    spec = {"name": "water", "cls": "w", "symbols": ["O", "H", "H"], "charge": 0, "bonds": None,
+            "coords": [[-0.0011, 0.3631, 0.0], [-0.825, -0.1819, 0.0], [0.8261, -0.1812, 0.0]],
+            "constraints": [(0, 1, 1.1)] if kind == "constrained" else []}
+    m = mol_of(spec)
+    x = CartesianCoordinates(m.coordinates)
+    rng = np.random.RandomState(7)
+    h = rng.normal(size=(9, 9))
+    x.e = -76.1234
+    x.update_g_from_cart_g(rng.normal(size=9))
+    x.update_h_from_cart_h(h + h.T)
+    if kind == "inverse-distances":
+        dic = DIC.from_cartesian(x)
+    elif kind == "primitives":
+        dic = DIC.from_cartesian(x, AnyPIC.from_species(m))
+    else:
+        dic = DICWithConstraints.from_cartesian(x, AnyPIC.from_species(m))
+    _ = dic.h_inv if kind != "constrained" else None
+    n = len(dic) + dic.n_constraints
+    step = size * np.ones(n)
+    if dic.n_constraints:
+        step[-dic.n_constraints:] = 0.0
+    probe = dic.copy(); probe.allow_unconverged_back_transform = False
+    try:
+        _ = probe + step
+        conv = True
+    except CoordinateTransformFailed:
+        conv = False
+    except Exception:  # noqa
+        return fails, None
+    x_old = np.array(x, copy=True)
+    if inplace:
+        dic.iadd(step); new = dic
+    else:
+        new = dic + step
+    cart = new.to("cart")
+    stale = []
+    if np.allclose(np.asarray(cart), x_old):
+        stale.append("(Cartesian coordinates did not move)")
+    for label, c in (("internal", new), ("cartesian", cart)):
+        for nm, v in (("energy", c.e), ("gradient", c.g), ("Hessian", c.h), ("inverse Hessian", c._h_inv)):
+            if v is not None:
+                stale.append(f"{label} {nm}")
+    if new.cart_proj_g is not None:
+        stale.append("cart_proj_g")
+    if stale:
+        fails.append((f"DIC.iadd|stale-tensor-after-{'converged' if conv else 'unconverged-fallback'}-step",
+                      f"{kind} DIC of water, step {size} in every coordinate via {'iadd' if inplace else '__add__'} (back-transformation "
+                      f"{'converged' if conv else 'did not converge, first-order estimate used'}): kept {', '.join(stale)}",
+                      {"kind": "stale-fallback", "coords": kind, "size": size, "inplace": inplace}))
+    return fails, conv
+
+
 # ---------------------------------------------------------------------------------------------
 # clear_tensors machine on the implementation
 # ---------------------------------------------------------------------------------------------
@@ -861,6 +1046,10 @@ def run_machine(kind, ops):
             c[0] = float(c[0]) + 1e-3; ver += 1
         elif op == "OAdd":
             c = c + d; ver += 1
+        elif op == "OAddBig":       # dic only: back-transformation does not converge, first-order fallback (allowed)
+            c = c + np.full(n, 3.0); ver += 1
+        elif op == "OIAddBig":
+            c += np.full(n, 3.0); ver += 1
         elif op == "OSub":
             c = c - d; ver += 1
         elif op == "OAddDiscard":
@@ -1057,8 +1246,11 @@ def corr_machine(ctx, n_cart, n_dic, add):
             ops = [ctx.rng.choice(OPS) for _ in range(ln)]
             if ctx.rng.random() < 0.5:
                 ops.append(ctx.rng.choice(["OSetItem", "OAdd", "OSub", "OIAdd", "OISub"]))
+            if kind == "dic" and ctx.rng.random() < 0.6:
+                ops.insert(ctx.rng.randint(0, len(ops)), ctx.rng.choice(["OAddBig", "OIAddBig"]))
             ver, e, g, h, hi, oh = run_machine(kind, ops)
-            term = (f"check_machine {coq_list(['(' + o + ')' if ' ' in o else o for o in ops])} {ver} {opt_nat(e)} {opt_nat(g)} "
+            cops = [{"OAddBig": "OAdd", "OIAddBig": "OIAdd"}.get(o, o) for o in ops]
+            term = (f"check_machine {coq_list(['(' + o + ')' if ' ' in o else o for o in cops])} {ver} {opt_nat(e)} {opt_nat(g)} "
                     f"{opt_nat(h)} {opt_nat(hi)} {opt_nat(oh)}")
             ctx.hist("model-clear_tensors", kind)
             add("model-clear_tensors", term, {"kind": "machine", "coords": kind, "ops": ops}, (kind, tuple(ops)), len(ops) > 1)
@@ -1226,6 +1418,38 @@ def impl_oracles(ctx, full):
         for phis in (seqs if (full or spec["name"] != "CC") else seqs[:1]):
             record(oracle_step_sequence(spec, bond, phis), "impl-step-sequence", (spec["name"], phis))
             ctx.count("impl-step-sequence", (spec["name"], phis), sample={"molecule": spec["name"], "torsions_deg": list(phis)})
+    # metal centres with improper (out-of-plane) dihedrals near 180 degrees: completeness, random steps and
+    # sequences of small out-of-plane steps in both directions
+    for spec in (PTCL4, PF5) + ((NICN4_CORE,) if full else ()):
+        fs, info = oracle_primitives(spec)
+        record(fs, "impl-improper", (spec["name"], "prim"))
+        ctx.count("impl-improper", (spec["name"], "prim"), sample={"molecule": spec["name"], "n_prim": info.get("n_prim"), "n_dic": info.get("n_dic")})
+        if "n_dic" in info:
+            fs2, ok = oracle_step(spec, rs.normal(size=info["n_dic"]).round(4).tolist(), 0.1)
+            record(fs2, "impl-improper", (spec["name"], "step"))
+            ctx.count("impl-improper", (spec["name"], "step"))
+        for at in (0, 1, 2):
+            for seq in ((0.04, 0.04, -0.08, -0.04), (-0.04, -0.04, 0.08, 0.04)):
+                record(oracle_oop_steps(spec, at, seq), "impl-improper", (spec["name"], at, seq))
+                ctx.count("impl-improper", (spec["name"], at, seq))
+    # long cumulene chains under every / random numberings of the chain atoms
+    import itertools
+    perms5 = list(itertools.permutations(range(5)))
+    for lab in perms5:
+        record(oracle_numbering(5, lab), "impl-numbering", (5, lab))
+        ctx.count("impl-numbering", (5, lab), nontrivial=True, sample={"chain_numbering": list(lab)})
+    perms6 = list(itertools.permutations(range(6)))
+    for idx in rs.choice(len(perms6), size=(120 if full else 12), replace=False):
+        record(oracle_numbering(6, perms6[int(idx)]), "impl-numbering", (6, perms6[int(idx)]))
+        ctx.count("impl-numbering", (6, perms6[int(idx)]))
+    # tensors after large steps whose back-transformation falls back to the first-order estimate
+    for kind in ("inverse-distances", "primitives", "constrained"):
+        for size in (0.01, 1.0, 3.0):
+            for inplace in (False, True):
+                fs, conv = oracle_stale_fallback(kind, size, inplace)
+                record(fs, "impl-stale", (kind, size, inplace))
+                ctx.count("impl-stale", ("fallback", kind, size, inplace))
+                ctx.hist("impl-stale", f"large-step {'converged' if conv else 'fallback' if conv is False else 'n/a'}")
     # dihedral continuity through +-180 degrees (and the winding beyond the code's range)
     for smi, bond in DIHEDRAL_CASES[:None if full else 2]:
         s, p, b = rdkit_geom(smi)
@@ -1336,6 +1560,12 @@ def replay(ctx, obj):
         fs = oracle_dihedral_step(spec, tuple(r["bond"]), r["start_deg"], r["dq"])
     elif kind == "sequence":
         fs = oracle_step_sequence(spec, tuple(r["bond"]), r["phis"])
+    elif kind == "oop":
+        fs = oracle_oop_steps(spec, r["atom"], r["disps"])
+    elif kind == "numbering":
+        fs = oracle_numbering(r["n_c"], r["labels"])
+    elif kind == "stale-fallback":
+        fs, _ = oracle_stale_fallback(r["coords"], r["size"], r["inplace"])
     elif kind == "stale":
         fs = oracle_stale(r["coords"], r["ops"])
     elif kind == "machine":
